@@ -98,6 +98,14 @@ def iparse_number_array(arr):
     return iparse_number_array_aux(arr)
 
 
+def wildcards_only(pattern):
+    """
+    fnmatch also reads [...] as a character class; in a sheet only * and ? are
+    wildcards, an opening bracket stands for itself.
+    """
+    return pattern.replace('[', '[[]')
+
+
 def parse_criteria(criteria):
     match = REGEX_CRITERIA.match(criteria)
     op = match.group('op')
@@ -109,7 +117,7 @@ def parse_criteria(criteria):
     else:
         if any(c in val for c in ('?', '*')):
             # Then use fnmatch
-            return lambda a: isinstance(a, string_types) and fnmatch.fnmatch(a, val)
+            return lambda a: isinstance(a, string_types) and fnmatch.fnmatch(a, wildcards_only(val))
         else:
             return lambda a: a == to_number(val)
 
